@@ -25,8 +25,6 @@ NA = {
 }
 PENDING = "planned in DESIGN.md, unit not built yet"
 NA.update({
-    "C01": "type soundness over all programs needs contracts on every type_info/resolve pair incl. TypeState/Kind collection algebra (BTreeMap-backed, outside Verus' subset; symbolic collection kinds explode in CBMC); only the scalar Kind algebra is decided (C19); no unit decides C01 itself",
-    "C02": "'infallible never fails' needs the same type_info-level contracts as C01; the runtime half (how errors propagate, what Runtime::resolve returns) is covered under C06-C09/C17, but no unit decides C02 itself",
     "C31": "Datadog matcher composition is generic over Box<dyn Matcher> closures built by regex-based leaf filters; not extractable for Verus, dyn dispatch + regex out of reach for Kani here",
     "C35": "embedder conversions are std str parsing (i64/f64 from_str, chrono strptime); parse_bool's finite spelling table is the only decidable part and does not decide the property",
 })
